@@ -11,6 +11,44 @@ from ..ref import names, avrobin, resolve as RS
 LEVEL = 'exploration'
 
 
+BASES = [
+    'int', 'long', 'float', 'string', 'bytes', ['null', 'int'], ['int', 'string', 'null'], ['long'],
+    {'type': 'array', 'items': 'int'}, {'type': 'map', 'values': 'long'}, {'type': 'enum', 'name': 'E', 'symbols': ['A', 'B', 'C']},
+    {'type': 'enum', 'name': 'Ed', 'symbols': ['A', 'B', 'C'], 'default': 'A'},
+    {'type': 'record', 'name': 'R', 'fields': [{'name': 'a', 'type': 'int'}, {'name': 'b', 'type': 'string'}, {'name': 'c', 'type': ['null', 'long']}]},
+    {'type': 'record', 'name': 'R2', 'namespace': 'n.s', 'fields': [{'name': 'e', 'type': {'type': 'enum', 'name': 'En', 'symbols': ['X', 'Y']}}, {'name': 'l', 'type': {'type': 'array', 'items': 'float'}},
+                                                               {'name': 'u', 'type': ['string', 'int']}, {'name': 'd', 'type': 'double'}]},
+    {'type': 'record', 'name': 'R3', 'fields': [{'name': 'x', 'type': 'bytes'}, {'name': 'dec', 'type': {'type': 'bytes', 'logicalType': 'decimal', 'precision': 6, 'scale': 2}},
+                                                {'name': 't', 'type': {'type': 'long', 'logicalType': 'timestamp-millis'}}]},
+    [{'type': 'record', 'name': 'A', 'fields': [{'name': 'x', 'type': 'int'}]}, {'type': 'record', 'name': 'B', 'fields': [{'name': 'y', 'type': 'string'}]}, 'null'],
+    [{'type': 'record', 'name': 'A', 'fields': [{'name': 'x', 'type': 'int'}]}, {'type': 'record', 'name': 'B', 'fields': [{'name': 'x', 'type': 'int'}, {'name': 'y', 'type': 'string'}]}],
+    {'type': 'record', 'name': 'L', 'fields': [{'name': 'v', 'type': 'long'}, {'name': 'next', 'type': ['null', 'L']}]},
+    {'type': 'map', 'values': {'type': 'record', 'name': 'Mv', 'fields': [{'name': 'k', 'type': 'float'}]}},
+]
+
+
+def deterministic_pairs():
+    """one pair per (evolution kind, base schema) with seed-independent randomness"""
+    out = []
+    for bi, j in enumerate(BASES):
+        for kind in EV.KINDS:
+            for rep in range(2):
+                rng = random.Random('det/%d/%s/%d' % (bi, kind, rep))
+                r = EV.evolve_once(j, rng, [0], force_kind=kind)
+                if r is None:
+                    continue
+                rj, label, safe = r
+                try:
+                    wn, wenv = names.parse(j)
+                    names.parse(rj)
+                except names.SchemaError:
+                    continue
+                vg = gvalue.ValueGen(rng, wenv, boundary_bias=0.4, max_depth=4, max_len=2, max_map=2)
+                vals = [vg.gen(wn) for _ in range(4)]
+                out.append({'cid': 'd%d' % len(out), 'base': bi, 'writer': j, 'reader': rj, 'labels': [label], 'safe': safe, 'values': vals})
+    return out
+
+
 def make_pairs(run, n, tag='c08'):
     out = []
     i = 0
@@ -34,6 +72,24 @@ def make_pairs(run, n, tag='c08'):
     return out
 
 
+_KNOWN = None
+
+
+def pick_sig(prefix, labels, case=None):
+    """Deterministic (seed-independent) pairs get a fine-grained signature naming the evolution step and the
+    base schema, so that any new misbehaviour on them is a new signature. Randomly generated pairs are
+    classified by root-cause class only (a closed set), because their step combinations are unbounded."""
+    if case is not None and str(case.get('cid', '')).startswith('d') and 'base' in case:
+        return '%s step=%s base=%d' % (prefix, labels[0], case['base'])
+    # closed class space for random pairs: drop the kind details
+    import re
+    return re.sub(r'why=(no-promotion|no-reader-union-branch-matches|named-types-do-not-match):\S+', r'why=\1', prefix)
+
+
+def last(d):
+    return d.rpartition('.')[2] if not d.endswith('u.index') else 'u.index'
+
+
 def sig_labels(labels):
     return '+'.join(sorted(set(labels)))
 
@@ -48,7 +104,7 @@ def check(run, replay_case=None):
     run.min_distinct = 60
     run.assumptions = ['reference rules avmon/ref/resolve.py; where the specification is ambiguous (reader-union branch: first match vs exact-then-first) every reading is admitted; '
                        'pairs the rules do not decide (logical-type changes other than identity) are skipped, not judged']
-    cases = [replay_case] if replay_case is not None else make_pairs(run, n)
+    cases = [replay_case] if replay_case is not None else deterministic_pairs() + make_pairs(run, n)
     b1 = []
     for c in cases:
         cid = c['cid']
@@ -85,8 +141,9 @@ def check(run, replay_case=None):
             try:
                 expected = RS.resolve(wn, wenv, rn, renv, v)
                 exp_err = False
-            except RS.NoResult:
+            except RS.NoResult as nr:
                 expected, exp_err = None, True
+                why = nr.reason
             except RS.Ambiguous:
                 run.count('triples_not_decided_by_the_rules(skipped)')
                 continue
@@ -112,35 +169,36 @@ def check(run, replay_case=None):
                 if st == 'panic':
                     run.violation('panic entry=%s site=%s' % (entry, val), 'resolution panicked', case, observed=val)
                 elif exp_err and st == 'ok':
-                    run.violation('value-where-rules-give-no-result steps=%s entry=%s' % (lab, entry), 'the resolution rules give no result for this datum, the library returned a value',
+                    run.violation(pick_sig('value-where-rules-give-no-result why=%s entry=%s' % (why, entry), c['labels'], c), 'the resolution rules give no result for this datum (%s; steps %s), the library returned a value' % (why, lab),
                                   case, observed=val)
                 elif not exp_err and st == 'err':
-                    run.violation('error-where-rules-give-a-result steps=%s entry=%s' % (lab, entry), 'the rules prescribe a value, the library reports an error (%s)' % val,
+                    run.violation(pick_sig('error-where-rules-give-a-result error=%s entry=%s' % (val, entry), c['labels'], c), 'the rules prescribe a value (steps %s), the library reports an error (%s)' % (lab, val),
                                   case, observed=val, expected=expected[:2])
                 elif not exp_err and not any(avrobin.veq(val, x) for x in expected):
-                    run.violation('wrong-result steps=%s entry=%s' % (lab, entry), 'the library resolves to a different value than the rules prescribe', case,
+                    from .c01 import diff_kind
+                    run.violation(pick_sig('wrong-result at=%s entry=%s' % (last(diff_kind(expected[0], val)), entry), c['labels'], c), 'the library resolves to a different value than the rules prescribe (steps %s)' % lab, case,
                                   observed=val, expected=expected[:2])
             # result validates against R; resolving again changes nothing
             if ve is not None and 'ok' in ve and 'value' in ve['ok']:
                 if not ve['ok'].get('valid', True):
-                    run.violation('resolved-value-does-not-validate steps=%s' % lab, 'the resolved value does not validate against the reader schema', case, observed=ve['ok'])
+                    run.violation(pick_sig('resolved-value-does-not-validate', c['labels'], c), 'the resolved value does not validate against the reader schema', case, observed=ve['ok'])
                 ag = ve['ok'].get('again')
                 if ag is not None:
                     if 'value' not in ag:
-                        run.violation('resolve-not-idempotent(error) steps=%s' % lab, 'resolving an already resolved value fails', case, observed=ag)
+                        run.violation(pick_sig('resolve-not-idempotent(error)', c['labels'], c), 'resolving an already resolved value fails', case, observed=ag)
                     elif not avrobin.veq(ag['value'], ve['ok']['value']):
-                        run.violation('resolve-not-idempotent steps=%s' % lab, 'resolving an already resolved value changes it', case, observed=ag, expected=ve['ok']['value'])
+                        run.violation(pick_sig('resolve-not-idempotent', c['labels'], c), 'resolving an already resolved value changes it', case, observed=ag, expected=ve['ok']['value'])
             # the three entry points agree
             oks = {e: r for e, r in results.items() if r[0] == 'ok'}
             if len(oks) > 1:
                 vals = list(oks.items())
                 for e2, r2 in vals[1:]:
                     if not avrobin.veq(vals[0][1][1], r2[1]):
-                        run.violation('entry-points-disagree %s vs %s steps=%s' % (vals[0][0], e2, lab), 'two entry points resolve the same datum differently', case,
+                        run.violation(pick_sig('entry-points-disagree %s vs %s at=%s' % (vals[0][0], e2, last(__import__('avmon.props.c01', fromlist=['diff_kind']).diff_kind(vals[0][1][1], r2[1]))), c['labels'], c), 'two entry points resolve the same datum differently', case,
                                       observed={vals[0][0]: vals[0][1][1], e2: r2[1]})
             sts = set(r[0] for r in results.values())
             if 'ok' in sts and 'err' in sts:
-                run.violation('entry-points-disagree-on-success steps=%s' % lab, 'one entry point returns a value where another reports an error', case,
+                run.violation(pick_sig('entry-points-disagree-on-success %s' % '+'.join(sorted('%s=%s' % (e, r[0]) for e, r in results.items())), c['labels'], c), 'one entry point returns a value where another reports an error', case,
                               observed={e: r[0] for e, r in results.items()})
 
 
